@@ -310,6 +310,29 @@ impl Ctx<'_> {
             ("n := 0.0 / 0.0; a := (n, 1); b := a; a == b", false),
             ("n := 0.0 / 0.0; a := struct{x := n}; b := a; a == b", false),
             ("n := 0.0 / 0.0; a := [1.5, n]; f := (x: any, y: any) -> bool { return x == y }; f(a, a)", false),
+            // the same name on both sides, the NaN inside a container of any static type
+            ("f := (x: [float]) -> bool { return x == x }; f([1.5, 0.0 / 0.0])", false),
+            ("f := (x: [float]) -> bool { return x == x }; f([1.5, 2.5])", true),
+            ("f := (x: (float, int)) -> bool { return x == x }; f((0.0 / 0.0, 1))", false),
+            ("f := (x: struct{a: float}) -> bool { return x == x }; f(struct{a := 0.0 / 0.0})", false),
+            ("f := (x: [[float]]) -> bool { return x == x }; f([[1.0], [0.0 / 0.0]])", false),
+            ("f := (x: [int|float]) -> bool { return x == x }; f([1, 0.0 / 0.0])", false),
+            ("f := (x: [any]) -> bool { return x == x }; f([\"s\", 0.0 / 0.0])", false),
+            ("f := (x: any) -> bool { return x == x }; f([0.0 / 0.0])", false),
+            ("f := (x: [float]) -> bool { y := x; return y == y }; f([0.0 / 0.0])", false),
+            ("f := (x: [float]) -> bool { return [x] == [x] }; f([0.0 / 0.0])", false),
+            ("f := (x: [float]) -> bool { return match x { x => true, => false, } }; f([0.0 / 0.0])", false),
+            ("f := (x: [float]) -> bool { g := () -> bool { return x == x }; return g() }; f([0.0 / 0.0])", false),
+            ("f := (x: mut [float]) -> bool { return *x == *x }; f(mut [0.0 / 0.0])", false),
+            ("f := (x: mut [float]) -> bool { return x == x }; f(mut [0.0 / 0.0])", true),
+            ("x := [hf(0.0) / hf(0.0)]; x == x", false),
+            // value-arm candidates are evaluated each time the match runs: a candidate reading a cell follows the cell
+            ("lim := mut 1; f := (x: int) -> bool { return match x { *lim => true, => false, } }; a := f(5); lim = 5; b := f(5); lim = 6; c := f(5); a == false && b == true && c == false", true),
+            ("lim := mut 1; f := (x: int) -> bool { return match x { *lim + 1, *lim + 2 => true, => false, } }; a := f(7); lim = 5; b := f(7); lim = 9; c := f(7); a == false && b == true && c == false", true),
+            ("lim := mut 1; f := (x: any) -> bool { return match x { (*lim, [*lim + 1]) => true, => false, } }; a := f((5, [6])); lim = 5; b := f((5, [6])); a == false && b == true", true),
+            ("lim := mut [int] [1]; f := (x: any) -> bool { return match x { *lim => true, => false, } }; a := f([1, 2]); lim += [2]; b := f([1, 2]); lim += [3]; c := f([1, 2]); a == false && b == true && c == false", true),
+            ("mk := () -> (int) -> bool { lim := mut 1; return (x: int) -> bool { r := match x { *lim => true, => false, }; lim += 1; return r } }; g := mk(); a := g(3); b := g(3); c := g(3); d := g(3); a == false && b == false && c == true && d == false", true),
+            ("lim := mut 1; f := (x: int) -> bool { return x == *lim }; a := f(5); lim = 5; b := f(5); a == false && b == true", true),
         ];
         for (src, want) in cases {
             for hidden in [false, true] {
